@@ -465,15 +465,17 @@ def _bcd(n):
     return ((n // 10) % 10) << 4 | (n % 10)
 
 
-def wrap_2352(raw):
-    """MODE1/2352: 12-byte sync, 3-byte BCD MSF address (LBA+150), mode 01, 2048 body, 288 trailer."""
+def wrap_2352(raw, first_address=150):
+    """MODE1/2352: 12-byte sync, 3-byte BCD MSF address (LBA+150), mode 01, 2048 body, 288 trailer.
+    `first_address`: the absolute address (in frames) of the first sector - 150 = 00:02:00 for a data track at the very
+    start of the disc, anything later for a track dumped from behind other tracks or from a second session."""
     raw = bytes(raw)
     if len(raw) % 2048:
         raw += b"\x00" * (2048 - len(raw) % 2048)
     sync = b"\x00" + b"\xFF" * 10 + b"\x00"
     out = bytearray()
     for lba in range(len(raw) // 2048):
-        a = lba + 150
+        a = lba + first_address
         mm, ss, ff = a // (75 * 60), (a // 75) % 60, a % 75
         out += sync + bytes([_bcd(mm), _bcd(ss), _bcd(ff)]) + b"\x01"
         out += raw[lba * 2048:(lba + 1) * 2048]
